@@ -53,6 +53,17 @@ INDEX_EVENTS_TABLE_ENDTIME = """
 """
 
 
+_EPOCH = datetime(1970, 1, 1, tzinfo=timezone.utc)
+_MICROSECOND = timedelta(microseconds=1)
+
+
+def _event_to_us(event: Event):
+    """Start and end of an event as integer microseconds since the epoch (exact, no float rounding)"""
+    starttime = (event.timestamp - _EPOCH) // _MICROSECOND
+    endtime = starttime + event.duration // _MICROSECOND
+    return starttime, endtime
+
+
 def _rows_to_events(rows: Iterable) -> List[Event]:
     events = []
     for row in rows:
@@ -236,8 +247,7 @@ class SqliteStorage(AbstractStorage):
 
     def insert_one(self, bucket_id: str, event: Event) -> Event:
         c = self.conn.cursor()
-        starttime = event.timestamp.timestamp() * 1000000
-        endtime = starttime + (event.duration.total_seconds() * 1000000)
+        starttime, endtime = _event_to_us(event)
         datastr = json.dumps(event.data)
         c.execute(
             "INSERT INTO events(bucketrow, starttime, endtime, datastr) "
@@ -263,8 +273,7 @@ class SqliteStorage(AbstractStorage):
         events_insert = [e for e in events if e.id is None]
         event_rows = []
         for event in events_insert:
-            starttime = event.timestamp.timestamp() * 1000000
-            endtime = starttime + (event.duration.total_seconds() * 1000000)
+            starttime, endtime = _event_to_us(event)
             datastr = json.dumps(event.data)
             event_rows.append((bucket_id, starttime, endtime, datastr))
         query = (
@@ -275,8 +284,7 @@ class SqliteStorage(AbstractStorage):
         self.conditional_commit(len(event_rows))
 
     def replace_last(self, bucket_id, event):
-        starttime = event.timestamp.timestamp() * 1000000
-        endtime = starttime + (event.duration.total_seconds() * 1000000)
+        starttime, endtime = _event_to_us(event)
         datastr = json.dumps(event.data)
         query = """UPDATE events
                    SET starttime = ?, endtime = ?, datastr = ?
@@ -297,8 +305,7 @@ class SqliteStorage(AbstractStorage):
         return cursor.rowcount == 1
 
     def replace(self, bucket_id, event_id, event) -> bool:
-        starttime = event.timestamp.timestamp() * 1000000
-        endtime = starttime + (event.duration.total_seconds() * 1000000)
+        starttime, endtime = _event_to_us(event)
         datastr = json.dumps(event.data)
         query = """UPDATE events
                      SET bucketrow = (SELECT rowid FROM buckets WHERE id = ?),
